@@ -1,6 +1,6 @@
 (* C14 — property theorems only. Each is closed by `exact` of a lemma proved in Proofs/C14Proofs.v
    (or by vm_compute for closed witnesses). *)
-From JV Require Import Lib.Base Model.C14ClassSpec Spec.C14Spec Model.C14Guard Proofs.C14Proofs.
+From JV Require Import Lib.Base Model.C14ClassSpec Spec.C14Spec Model.C14Guard Proofs.C14Proofs Proofs.C14ExtProofs.
 
 (* (S1) Whatever a parse accepts is valid for the declared type: for EVERY well-formed class family, declared
    type, argument default and sequence of argv items (any notation), the accepted value names — by its
@@ -105,3 +105,86 @@ Example C14_short_forms_nonvacuous :
      IRaw (RDict [(s_class_path, RStr (path_of x_fam x_Top)); (s_init_args, RDict [(x_mid, RNull)])])].
 Proof. vm_compute. reflexivity. Qed.
 Print Assumptions C14_short_forms_nonvacuous.
+
+(* (S3), bare class names: for ALL families (also families in which a second module defines a homonym of a class:
+   fam_shadows), declared types, states, modes and fuels - an item consisting of a class name without "." (alone, or as
+   the class_path of a spec dict) is accepted ONLY IF exactly one non-abstract public subclass of the declared type
+   carries that name (`listed`) and the name is not ambiguous; otherwise the item is rejected - no candidate is picked
+   silently.  Together with C14_short_form_one_item (the accepted name behaves like the explicit path of that one
+   class) this is "class name only denotes the same configuration as the explicit form". *)
+Theorem C14_bare_name_accepted_only_if_unique :
+  forall (F : family) (rs : raw -> raw) (n : nat) (m : mode) (base : str) (prev : option value) (nm : str) (v : value),
+    has_dot nm = false ->
+    adapt F rs n m base prev (IRaw (RStr nm)) = Ok v ->
+    exists k, listed F base nm = [k] /\ ambiguous F base nm = false.
+Proof. exact bare_name_unique. Qed.
+Print Assumptions C14_bare_name_accepted_only_if_unique.
+
+Theorem C14_bare_name_in_dict_accepted_only_if_unique :
+  forall (F : family) (rs : raw -> raw) (n : nat) (m : mode) (base : str) (prev : option value)
+         (d : list (str * raw)) (nm : str) (v : value),
+    has_dot nm = false -> is_spec_dict d = true -> aget s_class_path d = Some (RStr nm) ->
+    adapt F rs n m base prev (IRaw (RDict d)) = Ok v ->
+    exists k, listed F base nm = [k] /\ ambiguous F base nm = false.
+Proof. exact bare_name_in_dict_unique. Qed.
+Print Assumptions C14_bare_name_in_dict_accepted_only_if_unique.
+
+(* whole runs: whatever the default and the earlier items, a last item that is a bare name with no or several candidates
+   (none listed, or a homonym in a second module) makes parse fail *)
+Theorem C14_ambiguous_name_rejected :
+  forall (F : family) (rs : raw -> raw) (base : str) (dflt : option value) (steps : list input) (nm : str),
+    has_dot nm = false ->
+    (forall k, listed F base nm = [k] -> ambiguous F base nm = true) ->
+    run_with F rs base dflt (steps ++ [IRaw (RStr nm)]) = ORej.
+Proof. exact not_unique_rejected. Qed.
+Print Assumptions C14_ambiguous_name_rejected.
+
+(* the hypotheses are satisfiable and the statement is not vacuous: in y_fam (module jvfamy: Base, Sub(Base), Deep(Sub);
+   module jvfamy_alt: a second Sub(Base)) the name Sub is ambiguous below Base - rejected - while its explicit path,
+   the unshadowed name Deep, and the same name Sub for the declared type Sub itself (the homonym is no subclass of
+   it) are accepted *)
+Example C14_ambiguous_nonvacuous :
+  fam_wf y_fam = true /\
+  ambiguous y_fam y_Base y_Sub = true /\ length (listed y_fam y_Base y_Sub) = 1 /\
+  run y_fam y_Base None [IRaw (RStr y_Sub)] = ORej /\
+  (exists v io, run y_fam y_Base None [IRaw (RStr (path_of y_fam y_Sub))] = OAcc v io) /\
+  (exists v io, run y_fam y_Base None [IRaw (RStr y_Deep)] = OAcc v io) /\
+  (exists v io, run y_fam y_Sub None [IRaw (RStr y_Sub)] = OAcc v io).
+Proof. vm_compute. repeat split; try reflexivity; eexists; eexists; reflexivity. Qed.
+Print Assumptions C14_ambiguous_nonvacuous.
+
+(* (S1) for families whose class-typed parameters DEFAULT TO A CLASS SPEC (lazy_instance(Sub, k=v, ..)): fam_wf2 =
+   fam_wf_ext (the families the correspondence run generates) + every spec default has no dict_kwargs and int / str
+   init_args for int / str parameters of its class (sdef_ok) + no parameter name is str-typed in one callable and
+   class-typed in another (names_typed).  In these families the defaults pass meets previous values that are specs (the
+   completed default is the previous value of what the user gives for that parameter, its init_args survive a class
+   change where the new class takes them); the proof carries the invariant "every previous value of the defaults pass
+   is itself good for the parameter's class and free of dict_kwargs" (Proofs/C14ExtProofs.v: okprev, adapt_p1x,
+   keep_arg_tyn). *)
+Theorem C14_accepted_is_subclass_and_valid_spec_defaults :
+  forall (F : family) (rs : raw -> raw) (base : str) (dflt : option value) (steps : list input) (v : value),
+    fam_wf2 F = true ->
+    parse_with F rs base dflt steps = Ok v ->
+    valid F base v = true.
+Proof. exact parse_with_validx. Qed.
+Print Assumptions C14_accepted_is_subclass_and_valid_spec_defaults.
+
+Theorem C14_accepted_builds_configured_object_spec_defaults :
+  forall (F : family) (rs : raw -> raw) (base : str) (dflt : option value) (steps : list input) (v : value) (n : nat),
+    fam_wf2 F = true ->
+    parse_with F rs base dflt steps = Ok v ->
+    instantiable F v = true -> dk_accepted F v = true -> depth v < n ->
+    exists a log, inst F n v [] = Ok (a, log) /\
+                  length log = nodes v /\ backward 0 log = true /\ arg_tree (trees log) a = denote F v.
+Proof. exact accepted_buildsx. Qed.
+Print Assumptions C14_accepted_builds_configured_object_spec_defaults.
+
+(* satisfiable and beyond the first theorem: z_fam (Outer(inner: Base = lazy_instance(Sub, y=7), opt: Optional[Base] =
+   lazy_instance(Oth))) is fam_wf2 but not fam_wf; `--x.inner=Oth` is accepted and the y=7 of the default survives the
+   class change (Oth takes y) *)
+Example C14_spec_defaults_nonvacuous :
+  fam_wf2 z_fam = true /\ fam_wf z_fam = false /\
+  exists ia, parse z_fam z_Outer None z_steps = Ok (VSpec (path_of z_fam z_Outer) ia []) /\
+             aget z_inner ia = Some (VSpec (path_of z_fam z_Oth) [([121]%N, VInt 7)] []).
+Proof. split; [vm_compute; reflexivity|]. split; [vm_compute; reflexivity|]. eexists. vm_compute. split; reflexivity. Qed.
+Print Assumptions C14_spec_defaults_nonvacuous.
